@@ -19,7 +19,7 @@ RULE = ("cases = (pairing class x index window | edge window around m^2, m^2+m, 
 ASSUMPTIONS = [
     "coordinates and indices are explored up to 2e8 / 4e16 (axes of at most 1e8 points), not beyond",
     "gmpy2.qdiv is replaced by fractions.Fraction (exact) because gmpy2 is not installed",
-    "HyperbolicPairing is explored up to index 3000 (quick) / 20000 (thorough) only (sympy factorisation cost)",
+    "HyperbolicPairing is explored up to index 20000 (quick) / 100000 (thorough) (divisor-function cost)",
 ]
 REQUIRED_COUNTERS = ["roundtrip_index", "roundtrip_tuple", "z1d_orders", "lazy_products", "states_enumerations"]
 MIN_NONTRIVIAL = {"quick": 40, "thorough": 200}
@@ -35,7 +35,7 @@ def gen_cases(tier, seed):
     cases = []
     win = 20000 if not thorough else 200000
     for name in PAIRINGS2:
-        hi = win if name not in ("HyperbolicPairing", "PepisKalmar") else (3000 if not thorough else 20000)
+        hi = win if name not in ("HyperbolicPairing", "PepisKalmar") else (20000 if not thorough else 100000)
         if name == "PepisKalmar":
             hi = win
         step = 5000
